@@ -59,3 +59,23 @@ package engine
 //@   ensures [depth-limited] old(has(includedNames, name) && includedNames[name] > recursionMaxNums) ==> result1 != nil && GexecLast == old(GexecLast)
 //@   ensures [counter-restored] !old(has(includedNames, name)) ==> has(includedNames, name) && includedNames[name] == 0
 //@   ensures [counter-restored-nested] old(has(includedNames, name)) ==> includedNames[name] == old(includedNames[name])
+
+// ---- C05: AsConfig / AsSecrets key the chart's files by base name; for two files with the same base
+// name the later one wins, so the files are visited in a fixed (ascending path) order
+//@ func files.sortedNames
+//@   props C05
+//@   ensures [ascending] forall a, b int :: 0 <= a && a < b && b < len(result) ==> result[a] <= result[b]
+//@   ensures [every-file-listed] forall k string :: has(f, k) ==> (exists j int :: 0 <= j && j < len(result) && result[j] == k)
+//@   ensures [only-files-listed] forall j int :: 0 <= j && j < len(result) ==> has(f, result[j])
+//@   ensures [a-list-of-its-own] len(result) == 0 || fresh(result)
+//@   loop 1 invariant [a-list-of-its-own] len(names) == 0 || fresh(names)
+//@   loop 1 invariant [visited-files-listed] forall k string :: #done[k] ==> (exists j int :: 0 <= j && j < len(names) && names[j] == k)
+//@   loop 1 invariant [only-files-listed] forall j int :: 0 <= j && j < len(names) ==> has(f, names[j])
+
+//@ func files.AsConfig
+//@   props C05
+//@   loop 1 invariant [files-in-path-order] forall a, b int :: 0 <= a && a < b && b < len(#range) ==> #range[a] <= #range[b]
+
+//@ func files.AsSecrets
+//@   props C05
+//@   loop 1 invariant [files-in-path-order] forall a, b int :: 0 <= a && a < b && b < len(#range) ==> #range[a] <= #range[b]
